@@ -1770,10 +1770,15 @@ def _get_slice_With_AsyncWith_items(
             self._put_src(')', pars_end_ln, pars_end_col, pars_end_ln, pars_end_col, False)
             self._put_src('(', pars_ln, pars_col, pars_ln, pars_col, False)
 
-        elif not start and len_slice != len_body:  # if not adding pars then need to make sure cut didn't join new first `withitem` with the `with`
-            ln, col, _, _ = pars.bound
+        else:
+            from .fst_put_one import _fix_With_items  # local because of circular imports
 
-            self._fix_joined_alnums(ln, col)
+            _fix_With_items(self)  # same as delete: if we wound up with a tuple as the only item then need to parenthesize it because otherwise the elements will be mistaken for individual withitems on parse
+
+            if not start and len_slice != len_body:  # if not adding pars then need to make sure cut didn't join new first `withitem` with the `with`
+                ln, col, _, _ = pars.bound
+
+                self._fix_joined_alnums(ln, col)
 
     return fst_
 
